@@ -274,6 +274,12 @@ def handle (line : String) : String :=
       let n := explistCount items
       toString (if c == 0 then n else min n c)
     | _, _ => "bad-line"
+  | ["badexp", toks, "=", _] =>
+    match readToks toks with
+    | some ts => (match firstBad ts with
+      | some i => toString i
+      | none => "ok")
+    | none => "bad-line"
   | ["toks", toks, "=", _] =>
     match readToks toks with
     | some ts => parseShow ts
